@@ -461,6 +461,8 @@ def normalise(run):
                 t.raw.append(e)
                 if pid_ != 5:
                     t.arr_h.append((str(pid_), e["seq"]))
+                if pid_ == 5:
+                    t.addr["futex"] = e["arg"]
                 role = {1: "tsm", 2: "closure", 3: "stack", 4: "tls"}.get(pid_)
                 if role:
                     t.addr[role] = e["arg"]
@@ -642,53 +644,140 @@ def normalise(run):
     return order, batches, info
 
 
+def _restarted(r):
+    """a call the kernel restarts transparently (strace: `= ? ERESTARTNOINTR (To be restarted)`):
+    not an attempt of the program"""
+    return r["ret"] is None or (r["ret"] == "?" and r["call"] not in ("exit", "exit_group")) or "ERESTART" in (r.get("note") or "")
+
+
+def _clone_arg(r, name):
+    m = re.search(name + r"=(0x[0-9a-f]+|NULL|0)", r["args"])
+    return _hex(m.group(1)) if m else None
+
+
 def attach_strace(run, order, info, batches):
+    """Attach to every thread what strace saw of it.  Records are attributed by identity, never by
+    counting: a spawn's stack mmap is the owner's stack-sized mmap that returned the address the probe
+    saw at point SPAWN_STACK (or, for a spawn that returned Err before that point, the failed one),
+    found in the owner's program order after the previous spawn's; its clone is the owner's clone
+    between that mmap and the next spawn's whose child_stack lies in that mapping (and whose
+    child_tidptr is the address seen at SPAWN_BEFORE_CLONE), and whose result is the tid the closure
+    reported.  Restarted calls (`= ? ERESTART...`) are not attempts.  Anything that cannot be
+    attributed this way is listed in info["unattributed"] and the thread gets NO system-call facts
+    (no verdict can come from it)."""
     recs = run.strace
-    ssz = detect_stack_size(recs, info["h"], {t.addr["stack"] for t in order if "stack" in t.addr})
+    h = info["h"]
+    ssz = detect_stack_size(recs, h, {t.addr["stack"] for t in order if "stack" in t.addr})
     info["stack_sz"] = ssz
-    stack_maps, clones, by_pid = strace_threads(recs, info["main"], info["h"], ssz)
-    info["strace_stack_maps"] = len(stack_maps)
-    info["strace_clones"] = len(clones)
+    by_pid = {}
+    hrecs = []
+    for r in recs:
+        by_pid.setdefault(r["pid"], []).append(r)
+        if r["pid"] != h:
+            continue
+        if r["call"] == "mmap":
+            a = [x.strip() for x in r["args"].split(",")]
+            if len(a) >= 2 and a[0] == "NULL" and a[1] == str(ssz) and not _restarted(r):
+                hrecs.append(("mmap", r))
+        elif r["call"] in ("clone", "clone3") and not _restarted(r):
+            hrecs.append(("clone", r))
+    info["strace_stack_maps"] = sum(1 for k, _ in hrecs if k == "mmap")
+    info["strace_clones"] = sum(1 for k, _ in hrecs if k == "clone")
     info["injected"] = [r for r in recs if "INJECTED" in (r.get("note") or "")]
-    # H's stack mmaps and clone attempts happen in spawn order, one per spawn (when reached)
-    mi = 0
-    ci = 0
+    unattributed = info.setdefault("unattributed", [])
+    mmap_idx = [i for i, (k, _) in enumerate(hrecs) if k == "mmap"]
+    cur = 0          # index into mmap_idx: the owner's stack mmaps are consumed in program order
     live_stacks = 0
     for t in order:
-        reached_mmap = "closure" in t.addr or t.spawn_ok is not None
-        m = None
-        if mi < len(stack_maps) and reached_mmap:
-            m = stack_maps[mi]
-            mi += 1
-        t.mmap_rec = m
-        base = _hex(m["ret"]) if (m and m["ret"] and m["ret"].startswith("0x")) else None
+        t.mmap_rec = None
         t.clone_rec = None
-        if base is None:
+        if t.k == 0 and t.ty == "unit":
+            continue                      # the executor thread itself (created by main)
+        want = t.addr.get("stack")
+        reached = want is not None or t.spawn_ok is not None or t.timeout
+        if not reached:
             continue
-        live_stacks += 1
-        if "stack" in t.addr and t.addr["stack"] != base:
-            raise core.ToolError("strace/probe mismatch: thread k=%d stack %x vs mmap %x" % (t.k, t.addr["stack"], base))
+        # ---- the stack mmap of this spawn
+        j = cur
+        found = None
+        while j < len(mmap_idx):
+            m = hrecs[mmap_idx[j]][1]
+            base = _hex(m["ret"]) if (m["ret"] or "").startswith("0x") else None
+            if want is not None:
+                if base == want:
+                    found = j
+                    break
+            else:
+                # no address announced: the spawn ended before SPAWN_STACK - its mmap failed (or the
+                # announcement is missing): the next record in program order is this spawn's
+                found = j
+                break
+            j += 1
+        if found is None:
+            if want is not None:
+                unattributed.append({"k": t.k, "what": "no stack mmap of the owner returned %#x" % want})
+            continue
+        if found != cur:
+            unattributed.append({"k": t.k, "what": "%d stack mmap record(s) of the owner skipped before this spawn's" % (found - cur)})
+        m = hrecs[mmap_idx[found]][1]
+        cur = found + 1
+        t.mmap_rec = m
+        base = _hex(m["ret"]) if (m["ret"] or "").startswith("0x") else None
+        if base is None:
+            continue                      # the mmap failed: no stack, no thread
         t.stack_known = True
+        live_stacks += 1
+        lo = mmap_idx[found]
+        hi = mmap_idx[found + 1] if found + 1 < len(mmap_idx) else len(hrecs)
+        cands = [r for (k, r) in hrecs[lo + 1:hi] if k == "clone"]
+        good = []
+        for c in cands:
+            cs = _clone_arg(c, "child_stack") or _clone_arg(c, "stack")
+            ct = _clone_arg(c, "child_tidptr") or _clone_arg(c, "child_tid")
+            if cs is not None and not (base <= cs <= base + ssz):
+                continue
+            if "futex" in t.addr and ct is not None and ct != t.addr["futex"]:
+                continue
+            good.append(c)
+        ok = [c for c in good if (c["ret"] or "").isdigit() and int(c["ret"]) > 0]
         s = None
-        if ci < len(clones):
-            c = clones[ci]
-            ci += 1
-            t.clone_rec = c
-            s = thread_summary(recs, by_pid, c, base, ssz)
+        if t.tid is not None:
+            mine = [c for c in ok if int(c["ret"]) == t.tid]
+            if len(mine) == 1:
+                t.clone_rec = mine[0]
+            else:
+                unattributed.append({"k": t.k, "what": "no clone of the owner returned the tid %d the closure reported (%d candidate(s))" % (t.tid, len(ok))})
+                t.stack_known = False
+                live_stacks -= 1
+                continue
+        elif len(ok) == 1:
+            t.clone_rec = ok[0]          # a thread whose closure never reported (never ran / died first)
+        elif len(ok) > 1:
+            unattributed.append({"k": t.k, "what": "%d successful clones for one spawn" % len(ok)})
+            t.stack_known = False
+            live_stacks -= 1
+            continue
+        elif good:
+            t.clone_rec = good[-1]       # every attempt failed
+        if t.clone_rec is not None:
+            s = thread_summary(recs, by_pid, t.clone_rec, base, ssz)
             if s is not None:
                 t.sys = s
                 if s["own"] >= 1 and s["whole"]:
                     live_stacks -= 1
         if s is None:
             # no thread came out of this spawn: did the spawner itself unmap the stack again?
-            nxt = stack_maps[mi]["pos"] if mi < len(stack_maps) else 10**12
-            t.h_unmaps = [r for r in recs if r["pid"] == info["h"] and r["call"] == "munmap" and m["rpos"] < r["pos"] < nxt
+            nxt = hrecs[hi][1]["pos"] if hi < len(hrecs) else 10**12
+            t.h_unmaps = [r for r in recs if r["pid"] == h and r["call"] == "munmap" and m["rpos"] < r["pos"] < nxt
                           and _overlaps(r, base, ssz)]
             whole = [r for r in t.h_unmaps if _hex(r["args"].split(",")[0]) == base and int(r["args"].split(",")[1]) == ssz]
             if whole:
                 live_stacks -= 1
+    if cur < len(mmap_idx) and not (run.killed or info.get("timeout") or info.get("crash") or info.get("abort")):
+        unattributed.append({"k": None, "what": "%d stack mmap record(s) of the owner belong to no spawn" % (len(mmap_idx) - cur)})
     for b in batches[-1:]:
-        b["stacks"] = live_stacks if not run.killed else 0
+        # the mapping balance is only a fact when every record found its thread
+        b["stacks"] = live_stacks if not (run.killed or unattributed) else 0
 
 
 # ------------------------------------------------------------------------------------------------
